@@ -13,6 +13,26 @@ def factory(w, a):
     return [monitors.C03(w, a)]
 
 
+def pre_hook(world, gen_, mons):
+    """now and then a whale donates 2^100..2^118 of one asset to a funded pair: reserve products beyond every internal
+    number range (where formulas fall back, saturate or abort), followed by ordinary use"""
+    orig_next = gen_.next
+
+    def nxt():
+        if gen_.rng.random() < 0.02:
+            funded = [p for p in world.pairs if p.supply(world.ledger) > 0]
+            if funded:
+                p = gen_.rng.choice(funded)
+                asset = gen_.rng.choice(p.assets)
+                amt = 1 << gen_.rng.choice([96, 100, 108, 112, 116, 118])
+                who = gen_.rng.choice(["attacker", "trader1", "trader2"])
+                if world.ledger.get(who, asset[1]) >= amt:
+                    gen_.count += 1
+                    return world.op_donate(who, p.addr, asset, amt), []
+        return orig_next()
+    gen_.next = nxt
+
+
 def corrupt_drop(world, st):
     for p in world.pairs:
         if p.supply(st.pre) > 0 and p.supply(st.post) > 0 and min(p.reserves(st.pre)) > 1 and st.ok:
@@ -40,7 +60,7 @@ CORR = {"reserve_drop": corrupt_drop, "unbacked_mint": corrupt_mint}
 
 
 def run_shard(acc, prop, tier, seed, shard, nshards, **kw):
-    _w.shard(acc, PROP, tier, seed, shard, nshards, factory, WEIGHTS, (12, (120, 240)), (300, (120, 320)), CORR)
+    _w.shard(acc, PROP, tier, seed, shard, nshards, factory, WEIGHTS, (12, (120, 240)), (300, (120, 320)), CORR, pre_hook=pre_hook)
     if tier == "thorough":
         # long drift histories on dust pools, where rounding is proportionally largest
         _w.shard(acc, PROP + "drift", tier, seed, shard, nshards, factory,
